@@ -296,6 +296,37 @@ func c02floats(args []string) int {
 				out.Violate("float64:encoding-json", fmt.Sprintf("float64 bits %016x rendered %s, encoding/json renders %s", bits, tok, ref), map[string]interface{}{"float64_bits": fmt.Sprintf("%016x", bits)})
 			}
 		}
+		if i%32 == 0 {
+			// the other entry points must give the same token (also around the format switch points, which every
+			// fourth pattern is near)
+			tk := append([]byte(nil), tok...)
+			chk := func(name string, got []byte, pre, suf string) {
+				if !bytes.HasPrefix(got, []byte(pre)) || !bytes.HasSuffix(got, []byte(suf)) || !bytes.Equal(got[len(pre):len(got)-len(suf)], tk) {
+					out.Violate("float64:entrypoint:"+name, fmt.Sprintf("float64 bits %016x: Event.Float64 renders %s but %s gives %q", bits, tk, name, got), map[string]interface{}{"float64_bits": fmt.Sprintf("%016x", bits)})
+				}
+			}
+			l.Log().Floats64("f", []float64{v}).Send()
+			chk("Floats64", w.b, `{"f":[`, "]}\n")
+			l.Log().Array("f", zerolog.Arr().Float64(v)).Send()
+			chk("Array.Float64", w.b, `{"f":[`, "]}\n")
+			cl := l.With().Float64("f", v).Logger()
+			cl.Log().Send()
+			chk("Context.Float64", w.b, `{"f":`, "}\n")
+			cl2 := l.With().Floats64("f", []float64{v}).Logger()
+			cl2.Log().Send()
+			chk("Context.Floats64", w.b, `{"f":[`, "]}\n")
+			l.Log().Fields(map[string]interface{}{"f": v}).Send()
+			chk("Fields(map)", w.b, `{"f":`, "}\n")
+			l.Log().Fields([]interface{}{"f", &v}).Send()
+			chk("Fields(*float64)", w.b, `{"f":`, "}\n")
+			l.Log().Fields(map[string]interface{}{"f": []float64{v}}).Send()
+			chk("Fields([]float64)", w.b, `{"f":[`, "]}\n")
+			l.Log().Dict("f", zerolog.Dict().Float64("f", v)).Send()
+			chk("Dict.Float64", w.b, `{"f":{"f":`, "}}\n")
+			l.Log().Interface("f", v).Send()
+			chk("Interface", w.b, `{"f":`, "}\n")
+			out.Count("float64_entrypoint_sets_compared", 1)
+		}
 	}
 	out.Count("float64_patterns", int64(n64))
 	out.Count("float64_exponent_form", n64exp)
